@@ -90,6 +90,7 @@ type prioResult struct {
 	StopState       string
 	StopInjected    bool
 	CtlOps          int
+	AbsentRemovals  int
 	RemovedWithData int // removals / replacements after which the old channel had items taken or left
 	DivCalls        int
 	FaultHit        bool
@@ -443,7 +444,7 @@ func (x *prioExec) pollCtl() {
 					x.res.RemovedWithData++
 				}
 			}
-			if c.op == "RemoveInput" {
+			if c.op == "RemoveInput" && c.old != nil {
 				x.mon.allow(c.p, false)
 			}
 		}
@@ -937,11 +938,14 @@ func (x *prioExec) removeInput(op POp) {
 	if x.sys.removeInput == nil || x.stopIssued {
 		return
 	}
-	if x.inputs[op.P] == nil || !x.awaitCtl() {
+	if !x.awaitCtl() {
 		return
 	}
-	old := x.inputs[op.P]
+	old := x.inputs[op.P] // nil: the priority is not registered and the call must change nothing
 	delete(x.inputs, op.P)
+	if old == nil {
+		x.res.AbsentRemovals++
+	}
 	c := &ctlCall{op: "RemoveInput", p: op.P, in: old, old: old}
 	x.ctls = append(x.ctls, c)
 	x.res.CtlOps++
@@ -1026,6 +1030,11 @@ func (x *prioExec) epilogue() {
 				}
 			}
 			x.fail("C06", "no-progress-epilogue", "handlers release every item at once, %d written items are still undelivered, but nothing was delivered within %s (virtual)", und, prioL)
+			// the same observation under the properties that promise delivery of everything written
+			x.fail("C02", "never-delivered", "%d written items were never delivered although every input was closed and handlers released every item at once (waited %s virtual after the last delivery)", und, prioL)
+			if x.res.CtlOps > 0 {
+				x.fail("C17", "never-delivered-after-control-calls", "after AddInput / RemoveInput calls %d written items of registered channels were never delivered and the discipline did not terminate gracefully", und)
+			}
 			return
 		}
 	}
